@@ -5,8 +5,9 @@
    [aiter_lines] model httpx (ByteChunker/TextChunker, CPython's incremental UTF-8 decoder, LineDecoder with its
    buffer / trailing_cr state, str.splitlines) — these ARE chunk-sensitive, state is carried from chunk to chunk;
    [iter_sse], [iter_sse_events_text], [iter_ndjson], [iter_bytes] model streaming_helpers.py on top of them.
-   Results are [option]: [None] = the stream is not well-formed UTF-8 (outside the model; by C18_utf8 below this
-   is a property of the stream, never of the chunking).  [py_int] (int()) and [json_loads] are arbitrary functions. *)
+   The UTF-8 layer is CPython's incremental decoder with errors="replace" (what httpx TextDecoder uses): ill-formed
+   input is INSIDE the model, every theorem below holds for arbitrary bytes, including where the U+FFFD go.
+   [py_int] (int()) and [json_loads] are arbitrary functions. *)
 From PG Require Import Lib.Strs Model.Streaming Proofs.Streaming.
 
 (* ---- chunk independence: FULL (every chunk list, empty chunks included, no bound on sizes) ---- *)
@@ -17,14 +18,12 @@ Proof. exact ld_chunk_independent. Qed.
 Print Assumptions C18_ld_chunk_independent.
 
 (* the text chunks decoded from any chunking concatenate to the decoding of the whole stream *)
-Theorem C18_utf8 : forall cs : list bytes,
-  option_map (@concat N) (aiter_text cs) = utf8_decode (concat cs).
+Theorem C18_utf8 : forall cs : list bytes, concat (aiter_text cs) = utf8_decode (concat cs).
 Proof. exact utf8_chunk_independent. Qed.
 Print Assumptions C18_utf8.
 
 (* the lines are a function of the stream alone *)
-Theorem C18_lines : forall cs : list bytes,
-  aiter_lines cs = option_map splitlines (utf8_decode (concat cs)).
+Theorem C18_lines : forall cs : list bytes, aiter_lines cs = splitlines (utf8_decode (concat cs)).
 Proof. exact aiter_lines_stream. Qed.
 Print Assumptions C18_lines.
 
@@ -47,6 +46,27 @@ Theorem C18_ndjson : forall (J : Type) (json_loads : str -> option J) cs1 cs2, c
 Proof. exact ndjson_indep. Qed.
 Print Assumptions C18_ndjson.
 
+(* what users run: the generated client reads the whole body before the helper iterates it ([read_all]); its items are
+   those of the streaming path on the same stream, so they are independent of the server's chunking *)
+Theorem C18_e2e : forall py_int (J : Type) (json_loads : str -> option J) cs,
+  e2e_events py_int J json_loads cs = loads_all J json_loads (iter_sse_events_text py_int cs).
+Proof. exact e2e_events_stream. Qed.
+Print Assumptions C18_e2e.
+
+Theorem C18_e2e_indep : forall py_int (J : Type) (json_loads : str -> option J) cs1 cs2, concat cs1 = concat cs2 ->
+  e2e_events py_int J json_loads cs1 = e2e_events py_int J json_loads cs2.
+Proof. exact e2e_events_indep. Qed.
+Print Assumptions C18_e2e_indep.
+
+Theorem C18_e2e_bytes : forall cs, e2e_bytes cs = match concat cs with [] => [] | b => [b] end.
+Proof. exact e2e_bytes_whole. Qed.
+Print Assumptions C18_e2e_bytes.
+
+(* on well-formed streams the replace decoder invents nothing: it equals strict decoding *)
+Theorem C18_utf8_wf_strict : forall bs p s, u_strict [] bs = Some (p, s) -> utf8_decode bs = s ++ u_flush p.
+Proof. exact utf8_wf_strict. Qed.
+Print Assumptions C18_utf8_wf_strict.
+
 (* iter_bytes yields the chunks themselves: only their concatenation can be (and is) chunk independent *)
 Theorem C18_bytes : forall cs : list bytes, concat (iter_bytes cs) = concat cs.
 Proof. exact iter_bytes_concat. Qed.
@@ -67,21 +87,22 @@ Print Assumptions C18_splitlines_spec.
    or CR, stream ending after the blank line / after the last line's terminator / right after the last line, and
    EVERY chunking of its UTF-8 encoding: one event per block, data lines joined by "\n", comments ignored, last
    event/id/retry wins — provided [guard]: no CR/LF inside a line and retry all digits (domain of the format),
-   none of U+000B, U+000C, U+001C-1E, U+0085, U+2028, U+2029 in a line [F18a].  (Field values may start with white
+   none of U+000B, U+000C, U+001C-1E, U+0085, U+2028, U+2029 in a line [F18a].
+   [spec_events bs] = one [expected] event per block that has a field line (comment-only blocks carry none: F18c, fixed).  (Field values may start with white
    space: F18b is fixed, see C18_regression_F18b.)  [py_int] is any function that reads digit strings as Python's int() does. *)
 Theorem C18_partial : forall (py_int : str -> option Z),
   (forall ds, ds <> [] -> forallb is_digit ds = true -> py_int ds = Some (digits_val ds)) ->
   forall t k bs cs, guard bs = true ->
-  utf8_decode (concat cs) = Some (encode t k bs) ->
-  iter_sse py_int cs = Some (map expected bs) /\
-  iter_sse_events_text py_int cs = Some (filter nonemptyb (map e_data (map expected bs))).
+  utf8_decode (concat cs) = encode t k bs ->
+  iter_sse py_int cs = spec_events bs /\
+  iter_sse_events_text py_int cs = filter nonemptyb (map e_data (spec_events bs)).
 Proof. exact sse_roundtrip. Qed.
 Print Assumptions C18_partial.
 
 (* the decoder model inverts the standard UTF-8 encoding of every string of Unicode scalar values, so the hypothesis
    of C18_partial is satisfiable for every such text, and the statement can be made about chunkings of the encoded
    bytes themselves *)
-Theorem C18_utf8_decode_encode : forall s, forallb valid_cp s = true -> utf8_decode (utf8_encode s) = Some s.
+Theorem C18_utf8_decode_encode : forall s, forallb valid_cp s = true -> utf8_decode (utf8_encode s) = s.
 Proof. exact utf8_decode_encode. Qed.
 Print Assumptions C18_utf8_decode_encode.
 
@@ -89,22 +110,28 @@ Theorem C18_partial_bytes : forall (py_int : str -> option Z),
   (forall ds, ds <> [] -> forallb is_digit ds = true -> py_int ds = Some (digits_val ds)) ->
   forall t k bs cs, guard bs = true -> forallb valid_cp (encode t k bs) = true ->
   concat cs = utf8_encode (encode t k bs) ->
-  iter_sse py_int cs = Some (map expected bs) /\
-  iter_sse_events_text py_int cs = Some (filter nonemptyb (map e_data (map expected bs))).
+  iter_sse py_int cs = spec_events bs /\
+  iter_sse_events_text py_int cs = filter nonemptyb (map e_data (spec_events bs)).
 Proof. exact sse_roundtrip_bytes. Qed.
 Print Assumptions C18_partial_bytes.
+
+(* the int() hypothesis of C18_partial is met by the model of CPython's int() on ASCII strings (which the run compares
+   with the real int() on every ASCII candidate of every case) *)
+Theorem C18_int_ascii : forall ds, ds <> [] -> forallb is_digit ds = true -> py_int_ascii ds = Some (digits_val ds).
+Proof. exact py_int_ascii_digits. Qed.
+Print Assumptions C18_int_ascii.
 
 Theorem C18_ndjson_roundtrip : forall (J : Type) (jl : str -> option J) (recs : list (str * J)) t cs,
   all_clean (map fst recs) ->
   (forall l j, In (l, j) recs -> strip l <> [] /\ jl (strip l) = Some j) ->
-  utf8_decode (concat cs) = Some (enc_lines t (map fst recs)) ->
-  iter_ndjson J jl cs = Some (map snd recs, false).
+  utf8_decode (concat cs) = enc_lines t (map fst recs) ->
+  iter_ndjson J jl cs = (map snd recs, false).
 Proof. exact ndjson_roundtrip. Qed.
 Print Assumptions C18_ndjson_roundtrip.
 
 Theorem C18_refuted_F18a :
   guard_dom bs_F18a = true /\ guard_F18a bs_F18a = false /\
-  forall py_int, sse_of_lines py_int (splitlines (encode LF TFull bs_F18a)) <> map expected bs_F18a.
+  forall py_int, sse_of_lines py_int (splitlines (encode LF TFull bs_F18a)) <> spec_events bs_F18a.
 Proof. exact refuted_F18a. Qed.
 Print Assumptions C18_refuted_F18a.
 
@@ -114,6 +141,15 @@ Theorem C18_refuted_F18a_ndjson :
   ndjson_of_lines N jl_F18a (splitlines (enc_lines LF [nd_line_F18a])) = ([], true).
 Proof. exact refuted_F18a_ndjson. Qed.
 Print Assumptions C18_refuted_F18a_ndjson.
+
+(* regression for the fixed F18c: a comment-only (keep-alive) block delivers nothing *)
+Theorem C18_regression_F18c : forall py_int,
+  guard bs_F18c = true /\
+  sse_of_lines py_int (splitlines (encode LF TFull bs_F18c)) = spec_events bs_F18c /\
+  length (spec_events bs_F18c) = 1%nat /\
+  sse_of_lines py_int (splitlines (encode CRLF TLine [[IComment []]])) = [].
+Proof. exact regression_F18c. Qed.
+Print Assumptions C18_regression_F18c.
 
 (* regression for the fixed F18b: leading white space of a field value is payload *)
 Theorem C18_regression_F18b : forall py_int,
@@ -126,6 +162,6 @@ Print Assumptions C18_regression_F18b.
 
 Theorem C18_guard_nonvacuous :
   (guard bs_ok = true /\ length bs_ok = 2%nat) /\
-  (guard [[IData [233]]] = true /\ utf8_decode (concat cs_ok) = Some (encode CRLF TFull [[IData [233]]])).
+  (guard [[IData [233]]] = true /\ utf8_decode (concat cs_ok) = encode CRLF TFull [[IData [233]]]).
 Proof. exact (conj guard_nonvacuous roundtrip_nonvacuous). Qed.
 Print Assumptions C18_guard_nonvacuous.
